@@ -4,6 +4,7 @@ CONSTANTS
   DtOverDx <- HsTwo
   Operators = {"upwind", "central", "kappa13"}
   ImplKinds = {"implicit", "cranknicolson", "gear"}
+  DtModes = {"global", "local"}
   MaxSteps = 2
   ImplDeviations = {}
 INVARIANT DefiningRelation
